@@ -335,7 +335,7 @@ func (v *vc) contractCall(fr *frame, st *state, instr ssa.Instruction, fc *funcC
 	se.pre = pre
 	se.cur = pre
 	for _, r := range fc.requires {
-		t := se.evalBool(r.expr)
+		t := se.evalGoal(r.expr)
 		v.oblige(st, "requires", r.label, site, t, nil)
 	}
 	// modifies
@@ -351,7 +351,7 @@ func (v *vc) contractCall(fr *frame, st *state, instr ssa.Instruction, fc *funcC
 	se.cur = st
 	se.setResults(sig, results)
 	for _, e := range fc.ensures {
-		t := se.evalBool(e.expr)
+		t := se.evalAssume(e.expr)
 		v.fact(st, t)
 	}
 	v.setResult(fr, st, res, results)
@@ -463,7 +463,11 @@ func (v *vc) instrMods(fr *frame, in ssa.Instruction, m *modSet, depth int) {
 	case *ssa.Alloc:
 		m.allocs = true
 		et := x.Type().Underlying().(*types.Pointer).Elem()
-		if isStruct(et) {
+		if isStruct(et) && !x.Heap && !ptrEscapes(x, map[ssa.Value]bool{}) {
+			k := v.localKey(fr, x)
+			m.locals[k] = true
+			m.localTypes[k] = et
+		} else if isStruct(et) {
 			v.structMods(et, m)
 		} else if arr, ok := et.Underlying().(*types.Array); ok {
 			if isStruct(arr.Elem()) {
@@ -553,7 +557,7 @@ func (v *vc) ptrMods(fr *frame, p ssa.Value, m *modSet) {
 				return
 			}
 		}
-		if a, ok := x.X.(*ssa.Alloc); ok && !a.Heap && !isStruct(stt) {
+		if a, ok := x.X.(*ssa.Alloc); ok && !a.Heap && (!isStruct(stt) || !ptrEscapes(a, map[ssa.Value]bool{})) {
 			v.ptrMods(fr, x.X, m)
 			return
 		}
@@ -583,7 +587,11 @@ func (v *vc) ptrMods(fr *frame, p ssa.Value, m *modSet) {
 		}
 	case *ssa.Alloc:
 		et := x.Type().Underlying().(*types.Pointer).Elem()
-		if isStruct(et) {
+		if isStruct(et) && !x.Heap && !ptrEscapes(x, map[ssa.Value]bool{}) {
+			k := v.localKey(fr, x)
+			m.locals[k] = true
+			m.localTypes[k] = et
+		} else if isStruct(et) {
 			v.structMods(et, m)
 		} else if arr, ok := et.Underlying().(*types.Array); ok {
 			if isStruct(arr.Elem()) {
